@@ -122,6 +122,19 @@ func TestC08(t *testing.T) {
 			if !reflect.DeepEqual(c08Norm(mixed), c08Norm(flat)) {
 				r.violateClass("mix", "source %d, %s over mix=>: got %s, want the concatenation of the inner results %s", si, tmpl, c07Enc(mixed), c07Enc(flat))
 			}
+			// the same through a path that needs a keep=> step to stay an array of arrays: `g[keep=>(0:end)]` is g itself
+			r.Cases++
+			kept, err := c08Run(doc, fmt.Sprintf(tmpl, "mix=>g[keep=>(0:end)]"))
+			if err != nil {
+				r.violateClass("error", "source %d, %s over mix=>g[keep=>(0:end)]: %v", si, tmpl, err)
+				continue
+			}
+			if kept == nil {
+				kept = []any{}
+			}
+			if !reflect.DeepEqual(c08Norm(kept), c08Norm(flat)) {
+				r.violateClass("mix", "source %d, %s over mix=>g[keep=>(0:end)]: got %s, want the concatenation of the inner results %s", si, tmpl, c07Enc(kept), c07Enc(flat))
+			}
 		}
 	}
 	report(t, r)
